@@ -5,7 +5,7 @@ C09 driver: parses the case lines that the harness executes against the real bac
 Case lines (shared with harness/c09/c09.c):
   load reg /c09/reg | mode net|console | meh ok|raise|recurse | clone o<k> /c09/obj
   script <oid> <kind> <ops>      oid: u<k> | o<k> | k<k> (k-th connect attempt: ops = err | rej)
-                                 kind: logon | input | cmd:<verb> | netdead | hb | co:<tag> | reset | cleanup | it:<tag> | connect
+                                 kind: logon | input | cmd:<verb> | netdead | hb | co:<tag> | reset | cleanup | prompt | it:<tag> | connect
   vapply o<k> do_ops <ops>       ops at set-up time
   step <action>...               tick[:<dt>] conn:c<k> send:c<k>:<text> close:c<k> reset:c<k> cin:<text> idle
   run
@@ -58,6 +58,7 @@ def parseKind (s : String) : Option Kind :=
   | ["co", t] => some (.co t)
   | ["reset"] => some .reset
   | ["cleanup"] => some .cleanup
+  | ["prompt"] => some .prompt
   | ["it", t] => some (.it t)
   | _ => none
 
@@ -183,6 +184,7 @@ def render : Ev → String
   | .tCo o t => s!"t co {o.name} {t}"
   | .tReset o => s!"t reset {o.name}"
   | .tCleanup o => s!"t cleanup {o.name}"
+  | .tPrompt o => s!"t prompt {o.name}"
   | .tIt o t l => (s!"t it {o.name} {t} {l}").trimAsciiEnd.toString
   | .xIt o t => s!"x it {o.name} {t}"
   | .xErr who => s!"x err {who}"
@@ -214,6 +216,7 @@ def parseEv (line : String) : Ev :=
   | ["t", "co", o, t] => match parseOid o with | some o => .tCo o t | none => .crash line
   | ["t", "reset", o] => match parseOid o with | some o => .tReset o | none => .crash line
   | ["t", "cleanup", o] => match parseOid o with | some o => .tCleanup o | none => .crash line
+  | ["t", "prompt", o] => match parseOid o with | some o => .tPrompt o | none => .crash line
   | ["t", "it", o, t] => match parseOid o with | some o => .tIt o t "" | none => .crash line
   | ["t", "it", o, t, l] => match parseOid o with | some o => .tIt o t l | none => .crash line
   | ["x", "it", o, t] => match parseOid o with | some o => .xIt o t | none => .crash line
